@@ -28,7 +28,7 @@ def user_or_system_type(ctx, name="type"):
     return t
 
 
-def o1_origin(ctx, lx, ld, ack_to, tick_ms, role="net", multicast=True, reuse=False):
+def o1_origin(ctx, lx, ld, ack_to, tick_ms, role="net", multicast=True, reuse=False, readdress=False):
     from circuitpython_nrf24l01.network.structs import RF24NetworkHeader
     tick = tick_ms * 1_000_000  # constant within a run; enumerated (a symbolic tick makes every time comparison nonlinear)
     clock = fresh_env(ctx, tick_ns=tick)
@@ -44,6 +44,9 @@ def o1_origin(ctx, lx, ld, ack_to, tick_ms, role="net", multicast=True, reuse=Fa
     node.tx_timeout = ctx.int("tx_timeout", 5, 30)
     rt = ctx.int("route_timeout", 5, 40)
     node.route_timeout = rt
+    if readdress:  # the address is assigned (again) after the time-outs were chosen: they are the application's, and stay
+        node.node_address = x
+        ctx.check(s_and(node.route_timeout == rt, node.tx_timeout >= 5), "re-assigning node_address keeps route_timeout and tx_timeout")
     mtype = user_or_system_type(ctx)
     inject_at = ctx.int("inject_at_look", 0, 70)  # 70 = never (beyond every loop)
     other = sym_addr(ctx, "O", 1) if ack_to == "other" else None
@@ -303,6 +306,9 @@ def jobs(tier):
     for i, (lx, ld) in enumerate(combos[::6] if tier == "quick" else combos[::2]):
         out.append(Job("O1-origin-ignores-foreign-ack", o1_origin, dict(lx=lx, ld=ld, ack_to="other", tick_ms=ticks[i % 3]), cost=50, shards=4))
         out.append(Job("O1-origin-ignores-foreign-ack", o1_origin, dict(lx=lx, ld=ld, ack_to="other", tick_ms=ticks[i % 3], multicast=False),
+                       cost=50, shards=4))
+    for lx, ld in (((2, 3),) if tier == "quick" else ((0, 2), (2, 3), (3, 1))):
+        out.append(Job("O1-origin-after-re-assigning-its-address", o1_origin, dict(lx=lx, ld=ld, ack_to="self", tick_ms=7, readdress=True),
                        cost=50, shards=4))
     for lx, ld in (((1, 3), (2, 2)) if tier == "quick" else ((0, 2), (1, 3), (2, 2), (3, 1), (2, 4))):
         out.append(Job("O1-origin-reuses-a-frame-object", o1_origin, dict(lx=lx, ld=ld, ack_to="self", tick_ms=7, reuse=True), cost=80, shards=4))
